@@ -22,7 +22,9 @@ def oracle(rep, rng, n_cfg, n_hist, n_tr):
         stats['reverse_triples'] = stats.get('reverse_triples', 0) + 1
         if max(d.values()) > 1e-8:
             rfails.append(dict(kind='reverse-chen', config=ob._ser(cfg), triple=[s, u, t], defect=d))
-    return fails + rfails[:2], stats
+    wf, ws = ob.wrapper_search(rng, max(6, n_cfg // 2))
+    stats['wrappers'] = ws
+    return fails + rfails[:2] + wf, stats
 
 
 def search(rep, broken):
